@@ -1,0 +1,24 @@
+//! Verification hooks. Compiled only with `--cfg log4rs_verif`; with the flag
+//! off this module does not exist and the crate is unchanged.
+#![allow(missing_docs)]
+
+use std::{io, sync::Mutex};
+
+/// Callback invoked by the fixed-window roller before each archive shift
+/// (`k` counts from 0) and before the final move/compress of a rotation.
+/// Returning an error makes that step fail without touching the file system.
+pub type RotateStep = Box<dyn FnMut(usize, &str, &str) -> io::Result<()> + Send>;
+
+static ROTATE_STEP: Mutex<Option<RotateStep>> = Mutex::new(None);
+
+pub fn set_rotate_step(hook: Option<RotateStep>) {
+    *ROTATE_STEP.lock().unwrap_or_else(|e| e.into_inner()) = hook;
+}
+
+pub(crate) fn rotate_step(k: usize, src: &str, dst: &str) -> io::Result<()> {
+    let mut guard = ROTATE_STEP.lock().unwrap_or_else(|e| e.into_inner());
+    match guard.as_mut() {
+        Some(hook) => hook(k, src, dst),
+        None => Ok(()),
+    }
+}
